@@ -1,6 +1,8 @@
 package main
 
 import (
+	"bytes"
+	"context"
 	"fmt"
 	"math/rand"
 	"runtime"
@@ -666,6 +668,237 @@ func c02InFlight(r *Run, variant int) {
 
 // c02StressDebug re-runs one stress round (args round=N reps=K) and, if its writers stop
 // making progress, prints the policy's sizes read without the lock (diagnosis aid).
+// c02Tiers: the accounting half of the property on hybrid / hybrid-loading caches whose secondary store is slow
+// and fails: Sets, Deletes and Gets by a few goroutines, with bursts that overflow the bounded hand-off queue while
+// the workers are held inside the store, and 0-30% of the store's calls (Set, Get and Delete alike) failing. At
+// the end every write is applied and every hand-off processed (hooks H4), and the full quiescent invariant is
+// checked: resident cost == EstimatedSize <= MaxSize, every resident entry tracked exactly once, nothing tracked
+// that is not resident.
+func c02Tiers(r *Run, idx int) {
+	rng := r.Rng(int64(27000 + idx))
+	kind := []string{"hybrid", "hybrid-loading"}[idx%2]
+	M := []int64{5, 20, 60}[rng.Intn(3)]
+	failPct := []int{0, 10, 30}[rng.Intn(3)]
+	bar := &secBarrier{}
+	internal.VerifSetHook(bar.hook)
+	defer internal.VerifSetHook(nil)
+	nl := &noteLog[int, int64]{}
+	a, err := newAnyCache(kind, anyOpts{MaxSize: M, Workers: 1 + rng.Intn(3), Prob: []float32{1, 1, 0.5}[rng.Intn(3)], ProbSet: true, Listener: nl.listener()})
+	if err != nil {
+		r.Broken("build: %v", err)
+		return
+	}
+	defer a.store().Close()
+	st := a.store()
+	frng := rand.New(rand.NewSource(rng.Int63()))
+	var fmu sync.Mutex
+	var failedDeletes atomic.Int64
+	if failPct > 0 {
+		a.sec.fail = func(op string, n int64) bool {
+			fmu.Lock()
+			defer fmu.Unlock()
+			f := frng.Intn(100) < failPct
+			if f && op == "delete" {
+				failedDeletes.Add(1)
+			}
+			return f
+		}
+	}
+	a.sec.slow.Store(rng.Intn(2) == 0)
+	clients := 1 + rng.Intn(4)
+	keys := int(M)*2 + rng.Intn(int(M)*4)
+	var wg sync.WaitGroup
+	for cl := 0; cl < clients; cl++ {
+		wr := rand.New(rand.NewSource(rng.Int63()))
+		wg.Add(1)
+		go func(cl int) {
+			defer wg.Done()
+			for i := 0; i < 600; i++ {
+				k := wr.Intn(keys)
+				switch x := wr.Intn(100); {
+				case x < 50:
+					a.set(k, int64(cl)<<32|int64(i), int64(1+wr.Intn(3)), 0)
+				case x < 75:
+					_ = a.del(k)
+				default:
+					_, _, _ = a.get(context.Background(), k)
+				}
+			}
+		}(cl)
+	}
+	wg.Wait()
+	// a burst that overflows the hand-off queue while every worker is held inside the secondary store
+	overflowed := false
+	if rng.Intn(2) == 0 {
+		gate := make(chan struct{})
+		a.sec.mu.Lock()
+		a.sec.setGate = gate
+		a.sec.mu.Unlock()
+		var blocked sync.Map // shards whose read lock a held worker keeps: a Set there would wait for the gate
+		var stopBurst atomic.Bool
+		done := make(chan struct{})
+		go func() {
+			defer close(done)
+			for next := 1_000_000; next < 1_200_000 && !stopBurst.Load(); next++ {
+				for _, sk := range a.sec.stalledKeys() {
+					blocked.Store(st.VerifShardOf(sk), true)
+				}
+				if _, b := blocked.Load(st.VerifShardOf(next)); b {
+					continue
+				}
+				a.set(next, int64(next), 1, 0)
+			}
+		}()
+		// a held worker keeps its key's shard read-locked; a Set or an eviction on that shard - and with it the
+		// maintenance goroutine - waits until the gate opens, so nothing here may wait for the policy
+		for i := 0; i < 400 && !overflowed; i++ {
+			for _, sk := range a.sec.stalledKeys() {
+				blocked.Store(st.VerifShardOf(sk), true)
+			}
+			time.Sleep(5 * time.Millisecond)
+			overflowed = st.VerifSecQueueLen() >= st.VerifSecQueueCap()
+		}
+		if overflowed {
+			time.Sleep(20 * time.Millisecond) // a few more evictions find the queue full
+		}
+		stopBurst.Store(true)
+		a.sec.mu.Lock()
+		a.sec.setGate = nil
+		a.sec.mu.Unlock()
+		close(gate)
+		<-done
+	}
+	if !bar.settle(a) {
+		r.Inconclusive(1)
+		return
+	}
+	// a last, sequential pass: store a few keys and delete them again (the store still failing), so that whatever
+	// a Delete leaves behind is not washed out by later evictions before the snapshot
+	delFailedLast := 0
+	for i := 0; i < int(M)/2+1; i++ {
+		k := 2_000_000 + i
+		a.set(k, int64(i), 1, 0)
+		a.wait()
+		if err := a.del(k); err != nil {
+			delFailedLast++
+		}
+	}
+	if !bar.settle(a) {
+		r.Inconclusive(1)
+		return
+	}
+	sn := st.VerifSnapshot()
+	issues := checkQuiescent(sn, st.EstimatedSize(), true)
+	seen := map[string]bool{}
+	for _, is := range issues {
+		if seen[is.Key] {
+			continue
+		}
+		seen[is.Key] = true
+		key := is.Key + "/" + kind
+		if delFailedLast > 0 && (is.Key == "ghost-in-policy" || is.Key == "ghost-in-wheel" || is.Key == "resident-cost-vs-policy" || is.Key == "estimated-size-mismatch") {
+			key += "/after-a-delete-the-secondary-store-refused"
+		}
+		if overflowed {
+			key += "/after-handoff-queue-overflow"
+		}
+		r.Violate(key, fmt.Sprintf("tiers round %d (%s, MaxSize %d, %d clients, secondary failing %d%% of calls incl. %d Deletes, hand-off queue overflowed: %v), after all writes were applied and all hand-offs processed: %s", idx, kind, M, clients, failPct, failedDeletes.Load(), overflowed, is.What),
+			map[string]any{"round": idx, "cache": kind, "maxsize": M, "secondary_failure_percent": failPct, "overflowed": overflowed, "snapshot": snapSummary(sn)})
+	}
+	r.Eval(1)
+	r.Count("tiers_rounds", 1)
+	r.Count("tiers_failed_secondary_deletes", failedDeletes.Load())
+	if overflowed {
+		r.Count("tiers_rounds_with_handoff_queue_overflow", 1)
+	}
+	r.Distinct(fmt.Sprintf("tiers/%s/M%d/f%d/ov=%v", kind, M, failPct, overflowed))
+}
+
+// c02BulkLoad: LoadCache is a bulk write. A snapshot of one cache is loaded into another cache of the same or a
+// different MaxSize that is already in use - holding entries under other keys and under some of the snapshot's
+// own keys - and the quiescent invariant must hold afterwards (resident cost == EstimatedSize <= MaxSize, every
+// resident entry tracked exactly once, nothing tracked that is not resident).
+func c02BulkLoad(r *Run, idx int) {
+	rng := r.Rng(int64(28000 + idx))
+	kind := anyKinds[idx%len(anyKinds)]
+	srcM := []int64{20, 100, 400}[rng.Intn(3)]
+	dstM := []int64{srcM, srcM, srcM / 2, srcM * 2}[rng.Intn(4)]
+	overlap := rng.Intn(3) // 0: disjoint keys, 1: some keys in common, 2: the same keys
+	// hybrid kinds: an evicted entry stays in the map until a worker has handed it to the secondary store, so
+	// "quiescent" also means every hand-off processed (hooks H4)
+	bar := &secBarrier{}
+	internal.VerifSetHook(bar.hook)
+	defer internal.VerifSetHook(nil)
+	quiesce := func(a *anyCache) bool {
+		if a.hybrid() {
+			return bar.settle(a)
+		}
+		a.wait()
+		return true
+	}
+	src, err := newAnyCache(kind, anyOpts{MaxSize: srcM})
+	if err != nil {
+		r.Broken("build: %v", err)
+		return
+	}
+	defer src.store().Close()
+	for i := 0; i < int(srcM); i++ {
+		src.set(i, int64(i)<<8|1, int64(1+rng.Intn(2)), time.Duration(rng.Intn(2))*time.Hour)
+	}
+	if !quiesce(src) {
+		r.Inconclusive(1)
+		return
+	}
+	var buf bytes.Buffer
+	if err := src.save(1, &buf); err != nil {
+		r.Broken("save: %v", err)
+		return
+	}
+	dst, err := newAnyCache(kind, anyOpts{MaxSize: dstM})
+	if err != nil {
+		r.Broken("build: %v", err)
+		return
+	}
+	defer dst.store().Close()
+	base := map[int]int{0: 1 << 20, 1: int(srcM) / 2, 2: 0}[overlap]
+	fill := int(dstM) * (1 + rng.Intn(3)) / 3
+	for i := 0; i < fill; i++ {
+		dst.set(base+i, int64(i)<<8|2, int64(1+rng.Intn(2)), time.Duration(rng.Intn(2))*time.Hour)
+	}
+	if !quiesce(dst) {
+		r.Inconclusive(1)
+		return
+	}
+	if err := dst.load(1, &buf); err != nil {
+		r.Broken("load: %v", err)
+		return
+	}
+	if !quiesce(dst) {
+		r.Inconclusive(1)
+		return
+	}
+	st := dst.store()
+	sn := st.VerifSnapshot()
+	issues := checkQuiescent(sn, st.EstimatedSize(), true)
+	seen := map[string]bool{}
+	ov := []string{"disjoint-keys", "some-keys-in-common", "same-keys"}[overlap]
+	for _, is := range issues {
+		if seen[is.Key] {
+			continue
+		}
+		seen[is.Key] = true
+		key := is.Key + "/after-loadcache-into-a-cache-in-use"
+		if overlap > 0 {
+			key += "/keys-in-common"
+		}
+		r.Violate(key, fmt.Sprintf("bulk-load round %d (%s): snapshot of a MaxSize-%d cache loaded into a MaxSize-%d cache holding %d entries (%s): %s", idx, kind, srcM, dstM, fill, ov, is.What),
+			map[string]any{"round": idx, "cache": kind, "source_maxsize": srcM, "target_maxsize": dstM, "target_entries_before": fill, "keys": ov, "snapshot": snapSummary(sn)})
+	}
+	r.Eval(1)
+	r.Count("bulk_load_rounds", 1)
+	r.Distinct(fmt.Sprintf("bulkload/%s/%d->%d/%s", kind, srcM, dstM, ov))
+}
+
 func c02StressDebug(r *Run) {
 	round := mustAtoi(r.Args["round"], 2002)
 	reps := mustAtoi(r.Args["reps"], 50)
@@ -714,5 +947,13 @@ func runC02(r *Run) {
 	nIF := r.Pick(1, 5)
 	for i := 0; i < nIF; i++ {
 		c02InFlight(r, r.Shard+i)
+	}
+	nT := r.Pick(6, 120)
+	for i := 0; i < nT; i++ {
+		c02Tiers(r, r.Shard*nT+i)
+	}
+	nB := r.Pick(12, 240)
+	for i := 0; i < nB; i++ {
+		c02BulkLoad(r, r.Shard*nB+i)
 	}
 }
